@@ -566,10 +566,12 @@ theorem HD.runCall {t t' : Txn} {nu nu' : Nu} {c : Call} {r : Reply} (hd : HD t.
     simp only at e
     split at e
     · cases e
-    · rename_i t nu he
-      simp only [Except.ok.injEq, Prod.mk.injEq] at e
-      obtain ⟨rfl, _, _⟩ := e
-      exact hd.txn_drop he
+    · split at e
+      · cases e
+      · rename_i t nu he
+        simp only [Except.ok.injEq, Prod.mk.injEq] at e
+        obtain ⟨rfl, _, _⟩ := e
+        exact hd.txn_drop he
   | dropDatabase db =>
     simp only at e
     split at e
